@@ -335,6 +335,46 @@ pub fn abandoned_ops(g: &mut G) -> Scenario {
     Scenario { actors: vec![a], clients: vec![c0, c1], probes: vec![], peer_slots: false, erase: None, expect: None }
 }
 
+/// C11 / C07: every strong handle is dropped while accepted work - a message, a stop request, or both - is still queued
+/// behind a busy handler. The queued envelope / marker keeps the actor reachable: a weak handle must still upgrade
+/// (and what it yields is a full reference: it can send, stop and kill) until the queue has been served.
+pub fn upgrade_while_queued(g: &mut G) -> Scenario {
+    let a = ActorSpec { cap: Some(g.pick(&[2usize, 4, 32])), ..Default::default() };
+    let what = g.below(3); // 0 message, 1 stop marker, 2 both
+    // either the actor is busy in a handler (which itself holds a reference), or it is idle and simply has not been
+    // scheduled since the work was queued - then the queued item is the only thing that refers to it
+    let mut c = if g.chance(500) {
+        vec![Op::Tell { h: 0, m: Msg::with(g.mid(), vec![Op::Sleep(g.range(3, 8))]) }, Op::Downgrade { h: 0, to: 100 }]
+    } else {
+        vec![Op::Sleep(g.range(1, 3)), Op::Downgrade { h: 0, to: 100 }]
+    };
+    if g.chance(200) {
+        c.push(Op::Yield(g.range(1, 2) as u32));
+    }
+    if what != 1 {
+        c.push(tell(0, g));
+    }
+    if what != 0 {
+        c.push(Op::Stop { h: 0 });
+    }
+    c.push(Op::Drop { h: 0 });
+    if g.chance(300) {
+        c.push(Op::Yield(1));
+    }
+    c.push(Op::Upgrade { h: 100, to: 101 });
+    c.push(Op::Identity { h: 101 });
+    match g.below(4) {
+        0 => c.push(Op::Kill { h: 101 }),
+        1 => c.push(tell(101, g)),
+        2 => c.push(Op::Stop { h: 101 }),
+        _ => {}
+    }
+    c.push(Op::Drop { h: 101 });
+    c.push(Op::Sleep(20));
+    c.push(Op::Upgrade { h: 100, to: 102 });
+    Scenario { actors: vec![a], clients: vec![c], probes: vec![], peer_slots: false, erase: None, expect: None }
+}
+
 /// C10: the natural completion time of the operation placed before / at / after / never relative to
 /// the deadline, with the mailbox free, full or closed and the actor possibly dying first.
 pub fn deadline_alignment(g: &mut G) -> Scenario {
